@@ -255,7 +255,7 @@ func runOci(mode string, seed int64, tier string, sc *Script) map[string]any {
 	}
 	for ci := 0; ci < cases; ci++ {
 		u := GenDAG(rng, GenCfg{Blobs: 2 + rng.Intn(3), Manifests: 2 + rng.Intn(6), Subjects: true, Indexes: true,
-			NoOctet: true, EmptyBlob: rng.Intn(3) == 0})
+			NoOctet: true, EmptyBlob: rng.Intn(3) == 0, MixedAlgs: ci%3 == 2})
 		var forced []forcedOp
 		if ci < len(corpus) {
 			u, forced = corpus[ci].u, corpus[ci].ops
@@ -339,6 +339,7 @@ func runOci(mode string, seed int64, tier string, sc *Script) map[string]any {
 			sc.Op(c.runQuery(h, []string{"tags", "last=1"}), "%stags last=1", prefix)
 		}
 		aborted := false
+		strayFiles := map[int]string{}
 		for step := 0; step < steps && !aborted; step++ {
 			ops++
 			n := rng.Intn(len(u.Nodes))
@@ -452,10 +453,14 @@ func runOci(mode string, seed int64, tier string, sc *Script) map[string]any {
 				id := 1000 + step
 				data := []byte(fmt.Sprintf("stray-%d-%d", ci, step))
 				dg := digest.FromBytes(data)
-				p := filepath.Join(dir, "blobs", "sha256", dg.Encoded())
+				if step%2 == 1 {
+					dg = digest.SHA512.FromBytes(data)
+				}
+				p := filepath.Join(dir, "blobs", dg.Algorithm().String(), dg.Encoded())
 				os.MkdirAll(filepath.Dir(p), 0o777)
 				if err := os.WriteFile(p, data, 0o444); err == nil {
 					sc.Def("o stray %d", id)
+					strayFiles[id] = p
 				}
 			case r < reopenLo:
 				if mode == "C06" {
@@ -524,7 +529,7 @@ func runOci(mode string, seed int64, tier string, sc *Script) map[string]any {
 					// whatever it did, the live handle and a store opened on the directory now
 					// must tell the same story about tags, digests and predecessors
 					bd := digest.FromString(fmt.Sprintf("blocker-%d-%d", ci, step))
-					bp := filepath.Join(dir, "blobs", "sha256", bd.Encoded())
+					bp := filepath.Join(dir, "blobs", bd.Algorithm().String(), bd.Encoded())
 					os.MkdirAll(filepath.Join(bp, "x"), 0o755)
 					gerr := c.store.GC(ctx)
 					verdict := "consistent"
@@ -586,6 +591,15 @@ func runOci(mode string, seed int64, tier string, sc *Script) map[string]any {
 					if mode == "C09" {
 						b, _ := c.blobsOnDisk()
 						sc.Op(b, "o blobs")
+					}
+					if mode != "C06" {
+						var left []int
+						for id, p := range strayFiles {
+							if _, err := os.Stat(p); err == nil {
+								left = append(left, id)
+							}
+						}
+						sc.Op(fmtSet(left), "o strays")
 					}
 					queries("o ", c.store)
 				}
